@@ -25,7 +25,9 @@ import (
 	"math/big"
 	"net/http"
 	"net/url"
+	"net/http/httptest"
 	"path/filepath"
+	"reflect"
 	"runtime"
 	"sort"
 	"strconv"
@@ -34,6 +36,7 @@ import (
 	"sync/atomic"
 	"testing"
 	"time"
+	"unsafe"
 
 	"github.com/pquerna/otp/totp"
 	"github.com/tstranex/u2f"
@@ -292,6 +295,7 @@ type c16World struct {
 	token    *c16Token
 	admin    *http.Cookie
 	signBody []byte // the token's answer to alice's outstanding U2F challenge
+	pending  c16Pending // a federated login that was started and waits for its callback (when OAuth2 is configured)
 }
 
 func (cw *c16World) reset(t *testing.T) {
@@ -327,6 +331,18 @@ func (cw *c16World) reset(t *testing.T) {
 		delete(st.totpLocalRateLimit, k)
 	}
 	st.totpLocalTateLimitMutex.Unlock()
+	st.Mutex.Lock()
+	for k := range st.pendingOauth2 {
+		delete(st.pendingOauth2, k)
+	}
+	st.Mutex.Unlock()
+	if st.Config.Oauth2.Enabled && st.Config.Oauth2.Config != nil {
+		p, ok := cw.oauthBegin()
+		if !ok {
+			t.Fatalf("federated login could not be started")
+		}
+		cw.pending = p
+	}
 	rq := verifNewRequest("GET", u2fSignRequestPath, nil)
 	rq.AddCookie(cw.userCookie(c16Alice, AuthTypePassword))
 	rr, _ := cw.env.serve(rq)
@@ -528,12 +544,21 @@ func c16Handlers() map[string]c16Handler {
 			r.AddCookie(cw.userCookie(c16Alice, AuthTypePassword))
 			return r
 		}})
+	// the federated login: one pending login (model key 9, state parameter 5) exists after reset
+	hs = append(hs,
+		c16Handler{"oauth-callback", c16Federated, func(int64) string { return "HOauthCallback 9 5" }, func(cw *c16World) *http.Request { return cw.oauthCallbackReq(cw.pending) }},
+		c16Handler{"oauth-callback-badstate", c16Federated, func(int64) string { return "HOauthCallback 9 6" }, func(cw *c16World) *http.Request {
+			return cw.oauthCallbackReq(c16Pending{cookie: cw.pending.cookie, state: "not-the-state"})
+		}},
+		c16Handler{"oauth-begin", c16Federated, func(int64) string { return "HOauthBegin 8 6" }, func(cw *c16World) *http.Request { return verifNewRequest("GET", oauth2LoginBeginPath, nil) }})
 	m := map[string]c16Handler{}
 	for _, h := range hs {
 		m[h.name] = h
 	}
 	return m
 }
+
+const c16Federated = "(federated login)"
 
 func c16Status(code int) int {
 	if code == 302 {
@@ -598,7 +623,7 @@ func c16ShapeKey(trace []vStep, a, b int) string {
 }
 
 // requests that present a one-time value: several copies in one group present the same value
-var c16OneTime = map[string]string{"bootauth-bob": "bootstrap-otp", "totp-alice": "totp", "u2fsign-alice": "u2f-challenge"}
+var c16OneTime = map[string]string{"bootauth-bob": "bootstrap-otp", "totp-alice": "totp", "u2fsign-alice": "u2f-challenge", "oauth-callback": "oauth2-pending"}
 
 // is thread a's run contiguous with respect to thread b (no step of b strictly inside a's span)
 func c16Overlap(trace []vStep, a, b int) bool {
@@ -635,10 +660,13 @@ func c16Serial(trace []vStep) bool {
 
 func TestVerif_C16(t *testing.T) {
 	res := newVerifResult("all interleavings at storage-operation granularity (parking points: entry of LoadUserProfile / SaveUserProfile / DeleteUserProfile and every Mutex.Lock of 2fa_totp.go and 2fa_u2f.go, in an instrumented copy of the current files) of pairs (quick) and triples (thorough) of requests drawn from token disable / enable / rename / delete, user add / delete, bootstrap-OTP auth / generation, TOTP auth; each schedule run on the real handlers over SQLite, (answers, final profiles) compared with the sequential orders and with Model.Conc.run_seg; non-trivial = the two requests touch the same user and their storage operations really interleave")
+	provider := c16Provider()
+	defer provider.Close()
 	env := verifSetup(t, func(c *AppConfigFile, dir string) {
 		c.Base.AllowedAuthBackendsForWebUI = []string{"password"}
 		c.Base.AllowedAuthBackendsForCerts = []string{"U2F", "TOTP"}
 		c.Base.AdminUsers = []string{"admin"}
+		c16OauthConfig(c, provider.URL)
 	})
 	env.handler = env.buildHandler()
 	cw := &c16World{env: env, token: c16NewToken()}
@@ -661,6 +689,7 @@ func TestVerif_C16(t *testing.T) {
 		{"totp-alice", "totp-alice"}, {"totp-alice", "totp-alice-bad"}, {"totp-alice", "disable1"}, {"totp-alice", "rename1a"},
 		{"disable1", "bootauth-bob"},
 		{"u2fsign-alice", "u2fsign-alice"}, {"u2fsignreq-alice", "u2fsign-alice"}, {"u2fsign-alice", "disable1"}, {"deluser-alice", "u2fsign-alice"}, {"u2fsignreq-alice", "u2fsignreq-alice"},
+		{"oauth-callback", "oauth-callback"}, {"oauth-begin", "oauth-callback"}, {"oauth-callback", "oauth-callback-badstate"}, {"oauth-begin", "oauth-begin"},
 	}
 	triples := [][]string{
 		{"disable1", "rename1a", "rename2b"}, {"disable1", "enable1", "delete2"}, {"deluser-alice", "disable1", "rename2b"},
@@ -834,6 +863,7 @@ func TestVerif_C16(t *testing.T) {
 		}
 	}
 	ucases, uidx := c16UnsealSchedules(t, res)
+	c16StallSchedules(t, res)
 	var sb strings.Builder
 	sb.WriteString(coqCaseHeader)
 	sb.WriteString("From KM Require Import Base.Cases Model.Conc.\nOpen Scope N_scope.\n")
@@ -841,7 +871,7 @@ func TestVerif_C16(t *testing.T) {
 	sb.WriteString("Definition db0 : db := [(1, {| toks := [tk 1 11; tk 2 12]; botp := None; last_totp := 0 |}); (2, {| toks := []; botp := Some 7; last_totp := 0 |})].\n")
 	sb.WriteString("(* (requests, schedule at parking-point granularity, observed (answers, final profiles of users 1 2 3, -)) *)\n")
 	sb.WriteString("Definition cases : list (list hid * list nat * (list (option N) * list (option profile) * list (option N))) := [\n " + strings.Join(cases, ";\n ") + "].\n")
-	sb.WriteString("Definition c16_bad (c : list hid * list nat * (list (option N) * list (option profile) * list (option N))) : bool :=\n  let '(hs, sched, obs) := c in\n  negb (outcome_eqb (outcome [1; 2; 3] (run_seg (init_world db0 [(M_localAuth, 1, 3)] (map handler hs)) sched)) obs).\n")
+	sb.WriteString("Definition c16_bad (c : list hid * list nat * (list (option N) * list (option profile) * list (option N))) : bool :=\n  let '(hs, sched, obs) := c in\n  negb (outcome_eqb (outcome [1; 2; 3] (run_seg (init_world db0 [(M_localAuth, 1, 3); (M_pendingOauth2, 9, 5)] (map handler hs)) sched)) obs).\n")
 	sb.WriteString("Definition c16_mismatches := Eval vm_compute in mismatches c16_bad cases.\nPrint c16_mismatches.\nDefinition c16_ncases := Eval vm_compute in length cases.\nPrint c16_ncases.\n")
 	sb.WriteString("(* unseal || requests that serve the published keys, on a state that starts sealed: (requests, schedule, observed answers) *)\n")
 	sb.WriteString("Definition ucases : list (list hid * list nat * list (option N)) := [\n " + strings.Join(ucases, ";\n ") + "].\n")
@@ -1069,14 +1099,22 @@ func c16RaceUnseal(t *testing.T, res *verifResult) {
 
 func TestVerif_C16Race(t *testing.T) {
 	res := newVerifResult("randomised concurrent mixes of the whole handler set (token management, registration requests, U2F sign request / response with a software token, TOTP auth, bootstrap OTP, VIP push start / poll, OAuth2 begin / callback, user add / delete, state clean-up) under the race detector; plus the one-time-value oracles on simultaneous presentations")
+	provider := c16Provider()
+	defer provider.Close()
 	env := verifSetup(t, func(c *AppConfigFile, dir string) {
 		c.Base.AllowedAuthBackendsForWebUI = []string{"password"}
 		c.Base.AllowedAuthBackendsForCerts = []string{"U2F", "TOTP"}
 		c.Base.AdminUsers = []string{"admin"}
+		c16OauthConfig(c, provider.URL)
 	})
 	env.handler = env.buildHandler()
 	cw := &c16World{env: env, token: c16NewToken()}
 	cw.admin = env.cookie("admin", AuthTypePassword|AuthTypeU2F)
+	res.write(t, "TestVerif_C16Race") // a result file exists even if the runtime aborts the binary ("concurrent map writes")
+	c16LockHandoff(t, res, cw)
+	res.write(t, "TestVerif_C16Race")
+	// the periodic clean-up pass of the in-memory maps, among the requests (the daemon runs it every 30 s)
+	go env.state.performStateCleanup(1)
 	rng := verifRand()
 	hs := c16Handlers()
 	var names []string
@@ -1098,12 +1136,28 @@ func TestVerif_C16Race(t *testing.T) {
 		signBody := cw.signBody
 		var wg sync.WaitGroup
 		start := make(chan bool)
-		n := 24
+		// federated logins started before the round: their callbacks arrive during the round, one of them twice
+		var pend []c16Pending
+		for j := 0; j < 3; j++ {
+			if p, ok := cw.oauthBegin(); ok {
+				pend = append(pend, p)
+			} else {
+				res.hit(verifHit{Key: "C16:harness:oauth2-begin", Oracle: "harness", What: "the federated login could not be started", Case: round})
+			}
+		}
+		n := 24 + 8
 		codes := make([]int, n)
 		kinds := make([]string, n)
+		finished := make([]int32, n)
 		for i := 0; i < n; i++ {
 			var req *http.Request
 			switch {
+			case i >= 24 && i < 28 && len(pend) > 0:
+				kinds[i] = "oauth2-callback"
+				req = cw.oauthCallbackReq(pend[(i-24)%len(pend)])
+			case i >= 28:
+				kinds[i] = "oauth2-begin"
+				req = verifNewRequest("GET", oauth2LoginBeginPath, nil)
 			case i < 3 && signBody != nil:
 				kinds[i] = "u2f-sign-response"
 				req = verifNewRequest("POST", u2fSignResponsePath, nil)
@@ -1131,6 +1185,7 @@ func TestVerif_C16Race(t *testing.T) {
 			case i == 13:
 				kinds[i] = "oauth2-begin"
 				req = verifNewRequest("GET", oauth2LoginBeginPath, nil)
+				req.URL.RawQuery = "login_destination=%2Fprofile%2F"
 			case i == 14:
 				kinds[i] = "webauthn-login-begin"
 				req = verifNewRequest("GET", webAuthnAuthBeginPath, nil)
@@ -1149,10 +1204,26 @@ func TestVerif_C16Race(t *testing.T) {
 				if pan {
 					codes[i] = 599
 				}
+				atomic.StoreInt32(&finished[i], 1)
 			}(i, req)
 		}
 		close(start)
-		wg.Wait()
+		// watchdog: every request of the round returns
+		allDone := make(chan struct{})
+		go func() { wg.Wait(); close(allDone) }()
+		select {
+		case <-allDone:
+		case <-time.After(c16HangLimit):
+			for i := range kinds {
+				if atomic.LoadInt32(&finished[i]) == 0 {
+					res.hit(verifHit{Key: "C16:hang:" + kinds[i], Kind: "schedule", Oracle: "every request of a concurrent round returns",
+						What: fmt.Sprintf("round %d of %d simultaneous requests: %s had not returned %v after the start of the round (all others had)", round, n, kinds[i], c16HangLimit), Case: map[string]interface{}{"round": round, "kinds": kinds}})
+				}
+			}
+			res.Extra["rounds"] = round
+			res.write(t, "TestVerif_C16Race")
+			return
+		}
 		count := func(kind string, code int) int {
 			c := 0
 			for i := range kinds {
@@ -1178,8 +1249,189 @@ func TestVerif_C16Race(t *testing.T) {
 				res.hit(verifHit{Key: "C16:panic:" + kinds[i], Oracle: "no handler panics under concurrency", What: kinds[i] + " panicked", Case: round})
 			}
 		}
+		if c := count("oauth2-callback", 200); c == 0 && len(pend) > 0 {
+			res.hit(verifHit{Key: "C16:harness:oauth2-callback", Oracle: "harness", What: "no callback of a started federated login was accepted in this round", Case: round})
+		}
+		res.Extra["rounds"] = round
+		if round%5 == 0 {
+			res.write(t, "TestVerif_C16Race")
+		}
 	}
 	res.Extra["rounds"] = round
 	res.sample(map[string]interface{}{"rounds": round, "per_round": "24 concurrent requests"})
 	res.write(t, "TestVerif_C16Race")
+}
+
+// ---------------------------------------------------------------- federated login among the requests
+
+const c16HangLimit = 20 * time.Second
+
+// a fake OAuth2 provider: token and userinfo endpoints
+func c16Provider() *httptest.Server {
+	return httptest.NewServer(http.HandlerFunc(func(w http.ResponseWriter, r *http.Request) {
+		w.Header().Set("Content-Type", "application/json")
+		switch r.URL.Path {
+		case "/token":
+			w.Write([]byte(`{"access_token":"tok","token_type":"bearer","expires_in":3600}`))
+		case "/userinfo":
+			w.Write([]byte(`{"login":"alice"}`))
+		default:
+			w.WriteHeader(404)
+		}
+	}))
+}
+
+func c16OauthConfig(c *AppConfigFile, providerURL string) {
+	c.Oauth2.Enabled = true
+	c.Oauth2.ClientID = "keymaster"
+	c.Oauth2.ClientSecret = "secret"
+	c.Oauth2.AuthUrl = providerURL + "/auth"
+	c.Oauth2.TokenUrl = providerURL + "/token"
+	c.Oauth2.UserinfoUrl = providerURL + "/userinfo"
+	c.Oauth2.Scopes = "openid"
+}
+
+type c16Pending struct {
+	cookie *http.Cookie
+	state  string
+}
+
+func (cw *c16World) oauthBegin() (c16Pending, bool) {
+	rr, _ := cw.env.serve(verifNewRequest("GET", oauth2LoginBeginPath, nil))
+	if rr.Code != 302 {
+		return c16Pending{}, false
+	}
+	u, err := url.Parse(rr.Header().Get("Location"))
+	if err != nil {
+		return c16Pending{}, false
+	}
+	for _, c := range rr.Result().Cookies() {
+		if c.Name == redirCookieName {
+			return c16Pending{cookie: c, state: u.Query().Get("state")}, true
+		}
+	}
+	return c16Pending{}, false
+}
+
+func (cw *c16World) oauthCallbackReq(p c16Pending) *http.Request {
+	q := url.Values{}
+	q.Set("state", p.state)
+	q.Set("code", "abc")
+	req := verifNewRequest("GET", redirectPath, q)
+	req.AddCookie(&http.Cookie{Name: p.cookie.Name, Value: p.cookie.Value})
+	return req
+}
+
+// the mutexes of the state, found by reflection (sync.Mutex fields of RuntimeState)
+func c16StateMutexes(st *RuntimeState) map[string]*sync.Mutex {
+	out := map[string]*sync.Mutex{}
+	v := reflect.ValueOf(st).Elem()
+	mt := reflect.TypeOf(sync.Mutex{})
+	for i := 0; i < v.NumField(); i++ {
+		if v.Type().Field(i).Type == mt {
+			out[v.Type().Field(i).Name] = (*sync.Mutex)(unsafe.Pointer(v.Field(i).UnsafeAddr()))
+		}
+	}
+	return out
+}
+
+// Lock hand-over: a request that arrives while ANOTHER request is inside a critical section of one of the
+// state's mutexes waits for it and is then served.  (A request that works on a private copy of a held
+// mutex waits for ever: nobody unlocks the copy.)  For every kind of request of the concurrent mix and
+// every mutex of the state: the harness holds the mutex as "the other request", starts the request,
+// releases the mutex a moment later and expects the answer.
+func c16LockHandoff(t *testing.T, res *verifResult, cw *c16World) {
+	hs := c16Handlers()
+	type probe struct {
+		name  string
+		build func() *http.Request
+	}
+	var probes []probe
+	var names []string
+	for n := range hs {
+		names = append(names, n)
+	}
+	sort.Strings(names)
+	for _, n := range names {
+		h := hs[n]
+		probes = append(probes, probe{n, func() *http.Request { return h.build(cw) }})
+	}
+	probes = append(probes,
+		probe{"oauth2-begin", func() *http.Request { return verifNewRequest("GET", oauth2LoginBeginPath, nil) }},
+		probe{"oauth2-callback", func() *http.Request {
+			p, ok := cw.oauthBegin()
+			if !ok {
+				return nil
+			}
+			return cw.oauthCallbackReq(p)
+		}},
+		probe{"oauth2-callback-unknown", func() *http.Request {
+			return cw.oauthCallbackReq(c16Pending{cookie: &http.Cookie{Name: redirCookieName, Value: "unknown"}, state: "x"})
+		}},
+		probe{"u2f-sign-request", func() *http.Request {
+			r := verifNewRequest("GET", u2fSignRequestPath, nil)
+			r.AddCookie(cw.userCookie(c16Alice, AuthTypePassword))
+			return r
+		}},
+		probe{"vip-push-start", func() *http.Request {
+			r := verifNewRequest("GET", vipPushStartPath, nil)
+			r.AddCookie(cw.userCookie(c16Alice, AuthTypePassword))
+			return r
+		}},
+		probe{"webauthn-login-begin", func() *http.Request {
+			r := verifNewRequest("GET", webAuthnAuthBeginPath, nil)
+			r.AddCookie(cw.userCookie(c16Alice, AuthTypePassword))
+			return r
+		}})
+	mutexes := c16StateMutexes(cw.env.state)
+	var mnames []string
+	for n := range mutexes {
+		mnames = append(mnames, n)
+	}
+	sort.Strings(mnames)
+	if len(mnames) == 0 {
+		res.hit(verifHit{Key: "C16:harness:no-mutex", Oracle: "harness", What: "RuntimeState has no sync.Mutex field", Case: "lock hand-over"})
+	}
+	for _, mn := range mnames {
+		mu := mutexes[mn]
+		for _, p := range probes {
+			cw.reset(t)
+			req := p.build()
+			if req == nil {
+				continue
+			}
+			done := make(chan int, 1)
+			mu.Lock()
+			go func() {
+				rr, pan := cw.env.serve(req)
+				if pan {
+					done <- 599
+					return
+				}
+				done <- rr.Code
+			}()
+			time.Sleep(15 * time.Millisecond)
+			waited := false
+			select {
+			case <-done:
+			default:
+				waited = true
+			}
+			mu.Unlock()
+			if waited {
+				select {
+				case <-done:
+				case <-time.After(c16HangLimit / 4):
+					res.hit(verifHit{Key: "C16:hang:" + p.name, Kind: "schedule", Oracle: "a request that arrives while another request holds a mutex of the state is served once the mutex is released",
+						What: fmt.Sprintf("%s started while RuntimeState.%s was held by another request; the mutex was released 15 ms later; the request had not returned %v after that", p.name, mn, c16HangLimit/4),
+						Case: map[string]interface{}{"request": p.name, "mutex_held_by_another_request": mn}})
+				}
+			}
+			res.eval("handoff|"+mn+"|"+p.name, waited)
+			res.bump("lock_handoff_probes")
+			if waited {
+				res.bump("lock_handoff_request_waited_for_" + mn)
+			}
+		}
+	}
 }
